@@ -136,7 +136,7 @@ def finalize(m: dict, tier: str) -> list[str]:
                "invalid-key:y-off-curve", "invalid-key:control-block", "invalid-key:x-only", "inject:t>=n", "inject:t==n",
                "inject:t==n-1", "descr:pk-leaf", "descr:multi_a-leaf", "descr:key-only", "descr:ranged", "bip86:address"]
               + [f"spelling:{k}" for k in PUB_KINDS + PRV_KINDS + ["x-only", "x-only-hex"]]
-              + (["depth:128", "tree:balanced-deep"] if tier == "thorough" else [])):
+              + ["depth:128"] + (["tree:balanced-deep"] if tier == "thorough" else [])):
         if not c.get(k):
             out.append(f"input class {k} never evaluated")
     for f in ("leaf_hash", "tree_helper", "_tree_helper", "_tap_tweak", "_output_pubkey_and_internal_key", "output_pubkey",
@@ -477,6 +477,8 @@ def _shape_list(tier: str) -> list[tuple]:
     for s in SIZE_POINTS:
         L += [("sizes", s)] * (2 * k)
     L += [("versions", 3)] * (40 * k)
+    if q:   # the BIP341 depth limit itself is a boundary every tier visits: one chain each side of it and at it
+        L += [("left-chain", 128), ("right-chain", 128), ("zigzag", 127), ("left-chain", 33)]
     if not q:
         for d in (9, 16, 31, 32, 33, 64, 100, 126, 127, 128):
             L += [("left-chain", d), ("right-chain", d), ("zigzag", d)] * (2 if d < 100 else 3)
